@@ -87,6 +87,13 @@ theorem step_set (k : List K) (s : State) (x : List Byte)
       | subsh b => rfl
       | andor l a r => rfl
       | neg c => rfl
+      | async c =>
+        simp only [step]
+        have hx : controlsJobs k0 { s with inp := x } = controlsJobs k0 s := rfl
+        rw [hx]
+        by_cases hc : controlsJobs k0 s = true
+        · simp only [hc, if_true]; rfl
+        · simp only [hc]; rfl
       | redir rs c =>
         simp only [step]
         rw [performIn_comm (fun s => { s with inp := x }) (fun _ => rfl) (fun _ _ => rfl)]
